@@ -24,6 +24,7 @@ from ._utility import public_module
 from ._core import (
     ScopedIter,
     awaitify as _awaitify,
+    close_all,
     Sentinel,
     borrow as _borrow,
 )
@@ -199,9 +200,10 @@ class chain(AsyncIterator[T]):
         return self._iterator.__anext__()
 
     async def aclose(self) -> None:
-        for iterable in self._owned_iterators:
-            await iterable.aclose()
-        await self._iterator.aclose()
+        try:
+            await close_all(self._owned_iterators)
+        finally:
+            await self._iterator.aclose()
 
 
 async def compress(
@@ -565,9 +567,7 @@ async def zip_longest(
             yield tuple(values)
     finally:
         await fill_iter.aclose()  # type: ignore
-        for iterator in async_iters:
-            if hasattr(iterator, "aclose"):
-                await iterator.aclose()
+        await close_all(async_iters)
 
 
 async def identity(x: T) -> T:
